@@ -2624,7 +2624,8 @@ fn has_inert(v: &V) -> bool {
     match v {
         V::Inert(_) => true,
         V::Elem { kids, .. } | V::Tuple(kids) | V::Vec(kids) | V::Array(kids) => kids.iter().any(has_inert),
-        V::Some(x) | V::Left(x) | V::Right(x) | V::Ok(x) | V::Of3(_, x) | V::Owned(x) | V::Closure(x) | V::Susp(_, x) => has_inert(x),
+        V::Some(x) | V::Left(x) | V::Right(x) | V::Ok(x) | V::Of3(_, x) | V::Owned(x) | V::Closure(x) | V::Susp(_, x) | V::Eb(x)
+        | V::Show(_, x) | V::Suspense(_, x) => has_inert(x),
         _ => false,
     }
 }
@@ -3063,6 +3064,8 @@ fn add_susp(r: &mut Rng, v: &V, next: &mut usize, p: usize) -> V {
             V::Of3(i, x) => V::Of3(*i, Box::new(add_susp(r, x, next, p))),
             V::Owned(x) => V::Owned(Box::new(add_susp(r, x, next, p))),
             V::Closure(x) => V::Closure(Box::new(add_susp(r, x, next, p))),
+            V::Eb(x) => V::Eb(Box::new(add_susp(r, x, next, p))),
+            V::Show(w, x) => V::Show(*w, Box::new(add_susp(r, x, next, p))),
             V::Keyed(ks) if *next + ks.len() <= 6 && r.chance(1, 2) => {
                 let items = ks.iter().map(|k| {
                     *next += 1;
@@ -3137,6 +3140,9 @@ fn de_arc(v: &V) -> V {
         V::Owned(x) => V::Owned(Box::new(de_arc(x))),
         V::Closure(x) => V::Closure(Box::new(de_arc(x))),
         V::Susp(f, x) => V::Susp(*f, Box::new(de_arc(x))),
+        V::Eb(x) => V::Eb(Box::new(de_arc(x))),
+        V::Show(w, x) => V::Show(*w, Box::new(de_arc(x))),
+        V::Suspense(t, x) => V::Suspense(*t, Box::new(de_arc(x))),
         other => other.clone(),
     }
 }
@@ -3266,7 +3272,13 @@ fn gen(seed: u64, n: usize, path: &str) -> std::io::Result<()> {
                 let kids: Vec<V> = pre.iter().chain(&ia2).chain(&post).cloned().collect();
                 let in_class = in_position_class(mode, &d0, &[e(tag, kids.clone())]);
                 if next > 0 && !(in_class && (!position_cases() || kids.iter().any(has_inert))) {
-                    write_sfrag(&mut f, "", mode, &d0, &steps, tag, &pre, &ia2, &ib, &post)?;
+                    if in_class {
+                        // two string states may share one text node there: plain strings (see `gen_shyd`)
+                        let da = |vs: &[V]| vs.iter().map(de_arc).collect::<Vec<V>>();
+                        write_sfrag(&mut f, "", mode, &d0, &steps, tag, &da(&pre), &da(&ia2), &da(&ib), &da(&post))?;
+                    } else {
+                        write_sfrag(&mut f, "", mode, &d0, &steps, tag, &pre, &ia2, &ib, &post)?;
+                    }
                     continue;
                 }
             }
